@@ -404,6 +404,29 @@ def topo_oracle(b, v, e, d):
     rank = {s: i for i, s in enumerate(segs)}
     if di != [rank[x] for x in d] + [nd + rank[x] for x in d]:
         bad.append("union domain indices %s" % di)
+    # three and four grids (documented: unique indices 0..N-1 with N the total number of domains, grid by grid)
+    d2 = [3 * int(x) + 2 for x in d]  # non-contiguous labels
+    g2 = b.Grid(v + 5.0, e, np.asarray(d2, dtype="uint32"))
+    for grids, labels in (([g, g2, g], [list(d), d2, list(d)]), ([g2, g, g, g2], [d2, list(d), list(d), d2])):
+        un = G.union(grids)
+        exp = []
+        off = 0
+        for lab in labels:
+            rk = {s_: i for i, s_ in enumerate(sorted(set(lab)))}
+            exp += [off + rk[x] for x in lab]
+            off += len(rk)
+        if [int(x) for x in un.domain_indices] != exp:
+            bad.append("union of %d grids: domain indices %s, expected %s" % (len(grids), [int(x) for x in un.domain_indices], exp))
+        voff = 0
+        eoff = 0
+        for gr in grids:
+            if not np.array_equal(un.elements[:, eoff : eoff + gr.number_of_elements], gr.elements + voff):
+                bad.append("union of %d grids: element offsets" % len(grids))
+            voff += gr.number_of_vertices
+            eoff += gr.number_of_elements
+    un = G.union([g, g2], normalize_domain_indices=False)
+    if len(set(int(x) for x in un.domain_indices[:NE]) & set(int(x) for x in un.domain_indices[NE:])):
+        bad.append("union(normalize_domain_indices=False) merged domains of different grids")
     return bad
 
 
